@@ -7,6 +7,7 @@ package webp
 
 import (
 	"bytes"
+	"encoding/binary"
 	"errors"
 	"fmt"
 	"image"
@@ -221,8 +222,22 @@ func encodeFrameForAnimation(img image.Image, isLossless bool, quality int) ([]b
 		bs, _, err := encodeLossless(img, opts)
 		return bs, err
 	}
-	bs, _, err := encodeLossy(img, opts)
-	return bs, err
+	bs, alphaData, _, err := encodeLossyWithAlpha(img, opts)
+	if err != nil || len(alphaData) == 0 {
+		return bs, err
+	}
+	// Hand the muxer the ALPH-prefixed form it understands (ALPH chunk header,
+	// payload, pad byte, then the VP8 bitstream) so transparency is kept.
+	out := make([]byte, 0, container.ChunkHeaderSize+len(alphaData)+1+len(bs))
+	var hdr [container.ChunkHeaderSize]byte
+	binary.LittleEndian.PutUint32(hdr[0:4], container.FourCCALPH)
+	binary.LittleEndian.PutUint32(hdr[4:8], uint32(len(alphaData)))
+	out = append(out, hdr[:]...)
+	out = append(out, alphaData...)
+	if len(alphaData)%2 != 0 {
+		out = append(out, 0)
+	}
+	return append(out, bs...), nil
 }
 
 // simpleEncodeForAnimation encodes an image as a complete simple (non-animated)
